@@ -196,6 +196,17 @@ def handle : Handler := fun fn args =>
       lift (replace (← pvOfJson (← argAt args 0)) ups)
   | "s.setattr" => do
       lift (setattr (← pvOfJson (← argAt args 0)) (← asStr (← argAt args 1)) (← pvOfJson (← argAt args 2)))
+  | "s.declare" => do
+      let store ← asList (asList (fun p => do
+        let k ← asStr (← argAt p 0)
+        let v ← asInt (← argAt p 1)
+        pure (k, v))) (← argAt args 0)
+      let fs ← asList (fun p => do
+        let n ← asStr (← argAt p 0)
+        let b ← asBool (← argAt p 1)
+        let i ← optNat (← argAt p 2)
+        pure ({ name := n, node := b, metaId := i } : FieldSpec)) (← argAt args 1)
+      .ok (.arr ((declare store fs).map (fun p => Json.arr #[.str p.1, .bool p.2])).toArray)
   | "s.getattr" => do
       lift (getattr (← pvOfJson (← argAt args 0)) (← asStr (← argAt args 1)))
   | _ => .error "bad-op"
